@@ -27,6 +27,7 @@ def run_l1(ctx, nhist, monitor, theorems, need=()):
     ctx.programs += len(hs)
     ctx.disagreements += len(bad)
     ctx.disagreements_checked += len(bad)
+    ctx.mark("l1")
     ctx.suite("reducer.monitor", transitions=ntrans, failures=len(fails))
     ctx.require_coverage("reducer.monitor", "transitions", ntrans, 50)
     for hi, why in fails[:3]:
@@ -65,7 +66,15 @@ def run_l2(ctx, templates, n, monitor, need=(), label="engine", run_kw=None):
     for i in range(n):
         seed = rng.randrange(1 << 30)
         tmpl = templates[i % len(templates)]
-        spec, rec, obs = E.run_case(tmpl, seed, **(run_kw or {}))
+        try:
+            spec, rec, obs = E.run_case(tmpl, seed, **(run_kw or {}))
+        except RuntimeError as ex:
+            if "quiescent" not in str(ex):
+                raise
+            # the real engine kept producing work without any driver action (livelock): a concrete failing run
+            fails.append(dict(template=tmpl.__name__, seed=seed, actions=[],
+                              why="livelock: the engine never became quiescent between two driver actions (%s)" % ex))
+            continue
         why, facts = monitor(spec, rec, obs)
         for k, v in (facts or {}).items():
             facts_total[k] = facts_total.get(k, 0) + int(v)
@@ -79,6 +88,7 @@ def run_l2(ctx, templates, n, monitor, need=(), label="engine", run_kw=None):
         for w in why:
             fails.append(dict(template=tmpl.__name__, seed=seed, why=w, actions=[str(a) for a in obs.actions]))
     ctx.programs += n
+    ctx.mark(label)
     ctx.suite(label, runs=n, failures=len(fails), **facts_total)
     for k in need:
         k, m = (k if isinstance(k, tuple) else (k, 1))
